@@ -101,7 +101,7 @@ AUDIT_EXTRA = {
     'C03': [('C03Lex', 'Garnish.Props.C03Lex', None)],
     'C20': [('C20Compile', 'Garnish.Props.C20', None), ('SourceProps', 'Garnish.Props.SourceProps', r'^C20_')],
     'C08': [('C08Casts', 'Garnish.Props.C08Casts', r'^cast_'), ('RuntimeRefineArith', 'Garnish.Props.RuntimeRefine', r'^C08_'), ('RuntimeRefineData', 'Garnish.Props.RuntimeRefine', r'^C08_'), ('RuntimeRefineAccess', 'Garnish.Props.RuntimeRefine', r'^C08_'), ('RuntimeRefineApply', 'Garnish.Props.RuntimeRefine', r'^C08_'), ('RuntimeRefineInternals', 'Garnish.Props.RuntimeRefine', r'^C08_'), ('RuntimeRefineCast', 'Garnish.Props.RuntimeRefine', r'^C08_refine_type_cast')],
-    'C09': [('C09Laws', 'Garnish.Props.C09Laws', r'^C09_'), ('C09Laws2', 'Garnish.Props.C09Laws', r'^C09_int_(div|multiply_zero|subtract_self)'), ('C09Laws3', 'Garnish.Props.C09Laws', r'^C09_int_(power|shift|increment)'), ('RuntimeRefineArith', 'Garnish.Props.RuntimeRefine', r'^C09_'), ('SourceProps5', 'Garnish.Props.SourceProps', r'^C09_'), ('C14Lex', 'Garnish.Props.C14Lex', r'^C09_')],
+    'C09': [('C09Laws', 'Garnish.Props.C09Laws', r'^C09_'), ('C09Laws2', 'Garnish.Props.C09Laws', r'^C09_int_(div|multiply_zero|subtract_self)'), ('C09Laws3', 'Garnish.Props.C09Laws', r'^C09_int_(power|shift|increment)'), ('C09Laws4', 'Garnish.Props.C09Laws', r'^C09_int_absoluteValue'), ('RuntimeRefineArith', 'Garnish.Props.RuntimeRefine', r'^C09_'), ('SourceProps5', 'Garnish.Props.SourceProps', r'^C09_'), ('C14Lex', 'Garnish.Props.C14Lex', r'^C09_')],
     'C12': [('C12Laws', 'Garnish.Props.C12Laws', r'^C12_'), ('C12Laws2', 'Garnish.Props.C12Laws', r'^C12_'), ('C12Laws3', 'Garnish.Props.C12Laws', r'^C12_'), ('RuntimeRefineCompare', 'Garnish.Props.RuntimeRefine', r'^C12_'), ('SourceProps5', 'Garnish.Props.SourceProps', r'^C12_'), ('C14Lex', 'Garnish.Props.C14Lex', r'^C12_')],
     'C16': [('RuntimeRefineAccess', 'Garnish.Props.RuntimeRefine', r'^C16_'), ('RuntimeRefineConcat', 'Garnish.Props.RuntimeRefine', r'^C16_'), ('RuntimeRefineMakeList', 'Garnish.Props.RuntimeRefine', r'^C16_'), ('RuntimeRefineInternals', 'Garnish.Props.RuntimeRefine', r'^C16_'), ('ListSymSimple', 'Garnish.Props.ListSymSimple', r'^ListSym_'), ('C19ListOn', 'Garnish.Props.C19ListOn', r'^(basic_makeList_law|listLaw|binvL_init)$'), ('ListSymRun', 'Garnish.Props.ListSymRun', r'^ListSymRun_'), ('ListSymText', 'Garnish.Props.ListSymText', r'^ListSym_')],
     'C07': [('C08Casts', 'Garnish.Props.C08Casts', r'^C07_'), ('C07Access', 'Garnish.Props.C07Access', None), ('C07Reach', 'Garnish.Props.C07Reach', r'^(C07_|run_|accessSafe_|wf_implies|toAccessHeap_)'), ('C07ReachV', 'Garnish.Props.C07ReachV', r'^(C07_|runV_|WFq_|wfq_|stepV_|run_runV)'), ('C07ReachSimple', 'Garnish.Props.C07ReachSimple', r'^(C07_|simple_run_|step_safe)'), ('ListSymSimple', 'Garnish.Props.ListSymSimple', r'^ListSym_'), ('ListSymRun', 'Garnish.Props.ListSymRun', r'^ListSymRun_'), ('ListSymText', 'Garnish.Props.ListSymText', r'^ListSym_')],
